@@ -38,7 +38,7 @@ def run(name):
 def main():
     names = sys.argv[1:] or sorted(n for n in os.listdir(DIR) if os.path.isdir(os.path.join(DIR, n)))
     rows = []
-    with cf.ThreadPoolExecutor(max_workers=4) as pool:
+    with cf.ThreadPoolExecutor(max_workers=int(os.environ.get("SEED_JOBS", "4"))) as pool:
         for name, meta, out in pool.map(run, names):
             if out is None:
                 meta["result"] = "patch no longer applies"
